@@ -28,13 +28,13 @@ TABLE_OPS = ["Put", "PutPrev", "PutIfAbsent", "GetOrPut", "PutOrRemove", "PutAtF
              "GetAndMoveToFront", "GetAndMoveToBack", "Remove", "RemoveGet", "RemoveFirst", "RemoveLast",
              "MoveToFront", "MoveToBack", "MoveToBefore", "MoveToBehind", "MoveToPosition",
              "SortByKey", "SortByValue", "SortSelf", "Reposition", "Swap", "Clear", "Destroy", "AssignFrom", "AssignTo", "PutAll", "MoveToTable",
-             "RemoveAll", "Intersect", "EnsureSize", "ShrinkToFit", "SetAutoSort"]
+             "RemoveAll", "Intersect", "EnsureSize", "ShrinkToFit", "SetAutoSort", "EnsureCanPut"]
 QUERY_OPS = ["Get", "IndexOfKey", "IndexOfValue", "GetKeyAt", "GetValueAt", "GetFirstKey", "GetLastKey", "GetKeyBefore", "GetKeyAfter", "ContainsValue", "NumItems", "IsEqualTo"]
 ITER_OPS = ["ItNew", "ItNewAt", "ItAdv", "ItRet", "ItFlip", "ItDel", "ItCopy"]
 ALL_OPS = [o for o in TABLE_OPS if o != "SetAutoSort"] + QUERY_OPS + ITER_OPS        # plain Hashtable: no auto-sort switch
 SORTED_OPS = ["Put", "PutPrev", "PutIfAbsent", "GetOrPut", "PutOrRemove", "Remove", "RemoveGet", "RemoveFirst", "RemoveLast", "SortSelf", "Reposition",
               "Swap", "Clear", "Destroy", "AssignFrom", "AssignTo", "PutAll", "MoveToTable", "RemoveAll", "Intersect", "EnsureSize", "ShrinkToFit",
-              "SetAutoSort", "MoveToFront", "MoveToBack", "MoveToBefore", "MoveToBehind", "MoveToPosition", "PutAtFront"] + QUERY_OPS + ITER_OPS
+              "SetAutoSort", "MoveToFront", "MoveToBack", "MoveToBefore", "MoveToBehind", "MoveToPosition", "PutAtFront", "EnsureCanPut"] + QUERY_OPS + ITER_OPS
 INVS = ["TypeOK", "IterSafe", "NoSkip", "NoTwice", "StaysSorted"]
 # calls whose effect on the table is representative of every other one (model checking of the iterator clauses)
 MC_OPS = ["Put", "PutAtFront", "PutBefore", "PutBehind", "PutAtPosition", "Remove", "RemoveFirst", "RemoveLast", "MoveToFront", "MoveToBack", "MoveToBefore",
@@ -42,7 +42,7 @@ MC_OPS = ["Put", "PutAtFront", "PutBefore", "PutBehind", "PutAtPosition", "Remov
           "ItNew", "ItNewAt", "ItAdv", "ItRet", "ItFlip", "ItDel"]
 MC_SINGLE = ["Put", "PutPrev", "PutIfAbsent", "GetOrPut", "PutOrRemove", "PutAtFront", "PutAtBack", "PutBefore", "PutBehind", "PutAtPosition", "GetAndMoveToFront", "GetAndMoveToBack",
              "Remove", "RemoveGet", "RemoveFirst", "RemoveLast", "MoveToFront", "MoveToBack", "MoveToBefore", "MoveToBehind", "MoveToPosition", "SortByKey", "SortByValue", "SortSelf",
-             "Clear", "Destroy", "EnsureSize", "ShrinkToFit", "ItNew", "ItNewAt", "ItAdv", "ItRet", "ItFlip", "ItDel"]
+             "Clear", "Destroy", "EnsureSize", "ShrinkToFit", "EnsureCanPut", "ItNew", "ItNewAt", "ItAdv", "ItRet", "ItFlip", "ItDel"]
 MC_TWO = ["Put", "PutOrRemove", "PutAtFront", "PutBefore", "PutAtPosition", "Remove", "RemoveFirst", "RemoveLast", "MoveToFront", "MoveToBack", "MoveToBehind", "MoveToPosition", "SortByKey",
           "Swap", "Clear", "AssignFrom", "AssignTo", "PutAll", "MoveToTable", "RemoveAll", "Intersect", "ItNew", "ItNewAt", "ItAdv", "ItRet", "ItFlip", "ItDel"]
 MC_SORTED = ["Put", "PutOrRemove", "Remove", "RemoveFirst", "RemoveLast", "SortSelf", "Reposition", "Swap", "Clear", "AssignFrom", "PutAll", "MoveToTable", "RemoveAll", "Intersect",
@@ -51,6 +51,9 @@ MC_SORTED = ["Put", "PutOrRemove", "Remove", "RemoveFirst", "RemoveLast", "SortS
 MC_LOOSE = ["Put", "Remove", "SortSelf", "Reposition", "Clear", "Destroy", "SetAutoSort", "MoveToFront", "MoveToBack", "MoveToBefore", "PutAtFront", "EnsureSize", "ItNew", "ItAdv", "ItDel"]
 MC_SORTED_FULL = MC_SORTED + ["SetAutoSort", "MoveToFront", "MoveToBack", "MoveToBefore", "PutAtFront", "EnsureSize"]
 G_ORDERED = ["Put", "Remove", "SortSelf", "Reposition", "Clear", "SetAutoSort", "MoveToFront", "MoveToBack", "MoveToBefore", "MoveToBehind", "MoveToPosition", "PutAtFront", "EnsureSize", "ShrinkToFit"]
+# every uint32 position / index / count parameter with the boundary values of its type (0x7FFFFFFF, 0x80000000, 0xFFFFFFFE, 0xFFFFFFFF), on empty, 1- and 2-entry
+# tables (and next to the prefill blocks), with a live iterator
+G_BIGARGS = ["Put", "Remove", "PutAtPosition", "MoveToPosition", "GetKeyAt", "GetValueAt", "EnsureSize", "ShrinkToFit", "EnsureCanPut", "ItNew", "ItAdv", "ItDel"]
 # generation instances (spec -> code)
 G_SINGLE = ["Put", "PutAtFront", "PutAtBack", "PutBefore", "PutBehind", "PutAtPosition", "GetAndMoveToFront", "GetAndMoveToBack", "Remove", "RemoveFirst", "RemoveLast",
             "MoveToFront", "MoveToBack", "MoveToBefore", "MoveToBehind", "MoveToPosition", "SortByKey", "Clear", "ItNew", "ItNewAt", "ItAdv", "ItRet", "ItFlip", "ItDel"]
@@ -72,13 +75,13 @@ TIER = ["q"]
 CFGS = []
 
 
-def cfg(name, spec, keys, vals, maxit, sorted_, ops, ghost, record, invs=None, wrong=(), extra="", putvals="any"):
+def cfg(name, spec, keys, vals, maxit, sorted_, ops, ghost, record, invs=None, wrong=(), extra="", putvals="any", big=False):
     name = name.replace("gen_", "gen_%s%d_" % (TIER[0], os.getpid() % 100000), 1)      # several runs of this check may be going on (mutant trials)
     p = os.path.join(vlib.SPEC, FAM, name)
     CFGS.append(p)
     with open(p, "w") as f:
-        f.write("SPECIFICATION %s\nCONSTANTS\n  Keys = %s\n  Vals = %s\n  MaxIt = %d\n  Sorted = \"%s\"\n  Ops = %s\n  PutVals = \"%s\"\n  Wrong = %s\n  GHOST = %s\n  RECORD = %s\n" %
-                (spec, iset(keys), iset(vals), maxit, sorted_, tset(ops), putvals, tset(wrong), "TRUE" if ghost else "FALSE", "TRUE" if record else "FALSE"))
+        f.write("SPECIFICATION %s\nCONSTANTS\n  Keys = %s\n  Vals = %s\n  MaxIt = %d\n  Sorted = \"%s\"\n  Ops = %s\n  PutVals = \"%s\"\n  BigArgs = %s\n  Wrong = %s\n  GHOST = %s\n  RECORD = %s\n" %
+                (spec, iset(keys), iset(vals), maxit, sorted_, tset(ops), putvals, "TRUE" if big else "FALSE", tset(wrong), "TRUE" if ghost else "FALSE", "TRUE" if record else "FALSE"))
         if invs: f.write("INVARIANTS " + " ".join(invs) + "\n")
         f.write(extra)
     return name
@@ -134,7 +137,7 @@ def _run(v, tier, seed, quick):
 
     # ---------------------------------------------------------------------------------------- 1. model checking
     def model_check(tag, keys, vals, maxit, sorted_, ops, workers):
-        name = cfg("gen_MC_%s.cfg" % tag, "Spec", keys, vals, maxit, sorted_, ops, True, False, INVS)
+        name = cfg("gen_MC_%s.cfg" % tag, "Spec", keys, vals, maxit, sorted_, ops, True, False, INVS, big=(tag == "3keys_single_table"))
         r = pool.run(workers, "MapAbs", name, FAM, coverage=True, timeout=3000, heap="6g", extra=NOTE)
         vlib.require_ok(r, "MapAbs model check %s" % tag)
         missing = [o for o in ops if r.coverage.get("a" + o, (0, 0))[1] == 0]
@@ -151,7 +154,7 @@ def _run(v, tier, seed, quick):
     # ---------------------------------------------------------------------------------------- 2. spec -> code
     def generate(tag, keys, vals, maxit, ops):
         ordered = (tag == "ordered")     # tie-free instance of a sorting class (values = keys: sorted by key = sorted by value), replayed on both sorting classes
-        name = cfg("gen_Gen_%s.cfg" % tag, "GenSpec", keys, vals, maxit, "key" if ordered else "none", ops, False, True, ["TypeOK"], putvals="key" if ordered else "any")
+        name = cfg("gen_Gen_%s.cfg" % tag, "GenSpec", keys, vals, maxit, "key" if ordered else "none", ops, False, True, ["TypeOK"], putvals="key" if ordered else "any", big=(tag == "bigargs"))
         dot = W("g_%s.dot" % tag); bf = W("beh_%s.ndjson" % tag)
         r = pool.run(2, "MapGen", name, FAM, timeout=3000, heap="6g", dump=dot, extra=NOTE)
         vlib.require_ok(r, "MapGen graph dump %s" % tag)
@@ -169,7 +172,7 @@ def _run(v, tier, seed, quick):
         return tag, bf, nb
 
     def simulate(tag, n, depth, workers):
-        name = cfg("gen_Sim_%s.cfg" % tag, "SimSpec", [1, 2, 3], [1, 2], 2, "none", ALL_OPS, False, True, ["TypeOK"], extra="CONSTANTS SimDepth = %d\n" % depth)
+        name = cfg("gen_Sim_%s.cfg" % tag, "SimSpec", [1, 2, 3], [1, 2], 2, "none", ALL_OPS, False, True, ["TypeOK"], extra="CONSTANTS SimDepth = %d\n" % depth, big=True)
         r = pool.run(workers, "MapSim", name, FAM, timeout=3000, heap="4g", simulate=n // workers, depth=depth + 2, seed=seed, extra=NOTE)
         if r.error: raise vlib.MachineryError("MapSim: " + r.error)
         if r.violated: raise vlib.MachineryError("MapSim violates %s" % r.violated)
@@ -221,7 +224,7 @@ def _run(v, tier, seed, quick):
         nlines = sum(1 for _ in open(tr))
         def validate(match_iters):
             name = cfg("gen_Trace_%d_%d.cfg" % (idx, int(match_iters)), "TraceSpec", range(1, K + 1), range(1, V + 1), NIT, ["none", "key", "val"][cls], ALL_OPS if cls == 0 else SORTED_OPS, True, False, INVS,
-                       extra="CONSTANTS MatchIters = %s\nCONSTRAINT Track\nPOSTCONDITION Report\n" % ("TRUE" if match_iters else "FALSE"))
+                       extra="CONSTANTS MatchIters = %s\nCONSTRAINT Track\nPOSTCONDITION Report\n" % ("TRUE" if match_iters else "FALSE"), big=True)
             r = pool.run(1, "MapTrace", name, FAM, timeout=3000, heap="3g", env={"TRACE": tr}, keep_out=True, extra=NOTE)
             m = re.search(r'"maxline", (\d+), "of", (\d+)', r.out)
             if r.violated: return {"violated": r.violated}
@@ -241,7 +244,7 @@ def _run(v, tier, seed, quick):
                    ("sorted_key", [1, 2], [1, 2], 1, "key", MC_SORTED, 2), ("sorted_val", [1, 2], [1, 2], 1, "val", MC_SORTED, 2),
                    ("loose_key", [1, 2], [1, 2], 1, "key", MC_LOOSE, 1), ("loose_val", [1, 2], [1, 2], 1, "val", MC_LOOSE, 1)]
         gen_jobs = [("single", [1, 2, 3], [1], 1, G_SINGLE), ("two", [1, 2], [1], 1, G_TWO), ("vals", [1, 2], [1, 2], 1, G_VALS), ("block", [1, 2, 3], [1], 1, G_BLOCK), ("twoit", [1, 2], [1], 2, G_TWOIT),
-                    ("ordered", [1, 2, 3], [1, 2, 3], 0, G_ORDERED)]
+                    ("ordered", [1, 2, 3], [1, 2, 3], 0, G_ORDERED), ("bigargs", [1, 2], [1], 1, G_BIGARGS)]
         sim_job = ("sim", 100, 30, 1)      # one worker: the behaviours are a function of VERIF_SEED
         big_every = 16
         rnd = []   # (cls, bad, P, slack, runs, ops)
@@ -253,7 +256,7 @@ def _run(v, tier, seed, quick):
         mc_jobs = [("3keys_single_table", [1, 2, 3], [1], 1, "none", MC_SINGLE, 2), ("3keys_1it", [1, 2, 3], [1], 1, "none", MC_OPS, 4), ("2keys_2vals_1it_all", [1, 2], [1, 2], 1, "none", [o for o in ALL_OPS if o != "ItCopy"], 4),
                    ("2keys_2its", [1, 2], [1], 2, "none", ["Put", "Remove", "MoveToBack", "MoveToBefore", "PutAtPosition", "Clear", "Swap", "MoveToTable", "ItNew", "ItNewAt", "ItAdv", "ItRet", "ItDel", "ItCopy"], 4)]
         gen_jobs = [("single", [1, 2, 3], [1], 1, G_SINGLE), ("two", [1, 2], [1], 1, G_TWO), ("vals", [1, 2], [1, 2], 1, G_VALS), ("block", [1, 2, 3], [1], 1, G_BLOCK), ("twoit", [1, 2], [1], 2, G_TWOIT),
-                    ("two_big", [1, 2], [1, 2], 1, G_TWO_BIG), ("twoit_big", [1, 2], [1], 2, G_TWOIT_BIG), ("ordered", [1, 2, 3], [1, 2, 3], 0, G_ORDERED)]
+                    ("two_big", [1, 2], [1, 2], 1, G_TWO_BIG), ("twoit_big", [1, 2], [1], 2, G_TWOIT_BIG), ("ordered", [1, 2, 3], [1, 2, 3], 0, G_ORDERED), ("bigargs", [1, 2], [1], 1, G_BIGARGS)]
         sim_job = ("sim", 4000, 50, 4)
         big_every = 2
         rnd = []
@@ -287,7 +290,11 @@ def _run(v, tier, seed, quick):
             tot["behaviours"] += nb
             with open(bf) as fh: first = json.loads(fh.readline())
             samples.append({"kind": "behaviour replayed (%s)" % tag, "steps": [s for s in first["steps"] if s.get("op") != "-"][:6]})
-            if tag == "ordered":
+            if tag == "bigargs":
+                for h, slack in ((0, 0), (1, 1), (2, 2), (4, 3)): f_rep.append(ex.submit(replay, tag, bf, h, 0, slack))
+                for slack in (0, 1, 2, 3): f_rep.append(ex.submit(replay, tag, bf, (0, 2, 1, 4)[slack], 253, slack))
+                for slack in ((1, 2) if quick else (0, 1, 2, 3)): f_rep.append(ex.submit(replay, tag + "/%d" % (8 if quick else 2), subset(bf, tag, 8 if quick else 2), slack % 2, 65533, slack))
+            elif tag == "ordered":
                 for cls in (1, 2):
                     for bad, slack in (((0, 1), (1, 2), (0, 0)) if quick else [(h, sl) for h in (0, 1) for sl in (0, 1, 2, 3)]): f_rep.append(ex.submit(replay, tag, bf, bad, 0, slack, cls))
                     f_rep.append(ex.submit(replay, tag, bf, cls % 2, 253, cls, cls))
